@@ -1108,4 +1108,5 @@ func runMinimize(c *vrt.Ctx, race bool) {
 	nmc := 0
 	causeCount.Range(func(k, v any) bool { nmc++; return true })
 	c.Note("minimize.method_cause_pairs_exercised", nmc)
+	runMinimizeTies(c, race)
 }
